@@ -5,5 +5,9 @@ export CARGO_NET_OFFLINE=true
 mkdir -p "$VERIF_DIR/target" "$VERIF_DIR/evidence" "$VERIF_DIR/replays"
 cd "$VERIF_DIR/mc" || exit 1
 cp /repo/Cargo.lock Cargo.lock
+# a restored target directory may have been copied in the middle of a build: rebuild this
+# crate's own artefacts from scratch (the dependencies are kept)
+cargo clean --release --offline -p simple-irc-server 2>/dev/null
+rm -rf "$VERIF_DIR/target/release/incremental"
 cargo build --release --offline 2>&1 | tail -3
 test -x "$VERIF_DIR/target/release/mc"
